@@ -368,13 +368,15 @@ def fnv1a64(b):
     return h
 
 
-def gen_table_case(rng, stats, mode="mixed", comp=None, small=True, nkeys=None, pool=None):
+def gen_table_case(rng, stats, mode="mixed", comp=None, small=True, nkeys=None, pool=None, keys_override=None):
     """returns script lines.  mode: 'sorted' (C01), 'unsorted' (C08), 'mixed'"""
     cfg, comp, bs, ri = gen_wcfg(rng, stats, comp=comp, small=small)
     if pool is not None:
         cfg += " pool=%d" % pool
     n = nkeys if nkeys is not None else rng.pick([0, 1, 2, 3, 5, 8, 12, 20, 30])
     keys = gen_keys(rng, n, stats, long_ok=(comp == 0 or rng.chance(1, 4)))
+    if keys_override is not None:
+        keys = list(keys_override)
     lines = ["reset", "w.new 1 " + cfg]
     adds = list(keys)
     unsorted = mode == "unsorted" or (mode == "mixed" and rng.chance(1, 3))
@@ -436,6 +438,20 @@ def gen_table_case(rng, stats, mode="mixed", comp=None, small=True, nkeys=None, 
         for _ in range(rng.pick([2, 3, len(keys) + 1])):
             lines.append("r.next %d" % iid)
         iid += 1
+    # two lookups alive at once on the same reader, their steps interleaved: each iterator keeps its own position (in the
+    # index block too) whatever the other one does in between
+    for _ in range(rng.pick([1, 2, 2])):
+        ka = gen_kind(rng, keys, which=2 + rng.below(2)); kb = gen_kind(rng, keys, which=1 + rng.below(3))
+        if keys and rng.chance(1, 2):
+            ka = ("range", min(keys), max(keys))          # spans every block
+        ia, ib = iid, iid + 1; iid += 2
+        lines.append("r.it 2 %d %s" % (ia, kind_args(ka)))
+        for _ in range(rng.pick([0, 1, 3])):
+            lines.append("r.next %d" % ia)
+        lines.append("r.it 2 %d %s" % (ib, kind_args(kb)))
+        for _ in range(len(keys) + 3):
+            lines.append("r.next %d" % rng.pick([ia, ia, ib]))
+        stats.bump("two_live_lookups_interleaved")
     # seek/next histories on all kinds, interleaved between two iterators
     for _ in range(rng.pick([1, 2, 3])):
         kind = gen_kind(rng, keys)
@@ -727,6 +743,14 @@ def gen_merger_case(rng, stats, focus="C04"):
         # the same content through mtbl_source_write into a fresh table (bytes compared with the writer model)
         lines.append("m.write 1 bs=%d ri=%d" % (rng.pick([16, 32, 64, 200]), rng.pick([1, 2, 3]))); stats.bump("merger_source_write")
     iid = 11
+    if mode in ("dupsort", "none") and allkeys:
+        # no merge function: point lookups of keys that several sources hold, drained — every source entry for the key, in
+        # dupsort order when one is set, whatever order the sources were added in
+        multi = [k for k in allkeys if sum(1 for _, es in srcs for kk, _ in es if kk == k) >= 2]
+        for k in multi[:3]:
+            lines.append("m.it 1 %d %s" % (iid, kind_args(("get", k))))
+            lines += ["m.next %d" % iid] * (sum(1 for _, es in srcs for kk, _ in es if kk == k) + 1)
+            iid += 1; stats.bump("merger_get_of_key_held_by_several_sources")
     if focus == "C05" or rng.chance(1, 2):
         for _ in range(rng.pick([2, 4])):
             kind = gen_kind(rng, allkeys, which=1 + rng.below(3))
@@ -836,8 +860,11 @@ def oracle_merger(res):
                 if real != "fail":
                     fails.append(("C05", "next on a NULL iterator returned " + real[:60], i))
                 continue
+            also = None
             if it["seeked"] or it["kind"][0] != "iter":
                 prop = "C05"
+                if not it["seeked"]:
+                    also = "C04"      # what a merger emits for a key (fold / every source entry in dupsort order), asked for by a lookup
             if it["dead"]:
                 continue
             exp = it["c"].next()
@@ -854,6 +881,8 @@ def oracle_merger(res):
                 want = "ent %s %s" % (hx(exp[0]), hx(exp[1]))
                 if real != want:
                     fails.append((prop, "next returned %s, expected %s" % (real[:80], want[:80]), i))
+                    if also and real.startswith("ent ") and real.split(" ")[1] == hx(exp[0]):
+                        fails.append((also, "lookup (%s) on the merger, entry for key %s: next returned %s, the merged content has %s" % (it["kind"][0], hx(exp[0])[:40], real[:80], want[:80]), i))
         elif op == "m.seek":
             it = iters.get(t[1], "missing")
             if it in ("missing", None):
